@@ -779,6 +779,68 @@ int main(int argc, char **argv)
         std::cout << "RECORDED " << n << std::endl;
         return 0;
     }
-    fprintf(stderr, "usage: planners list | c01|c03|c04 <jobs> <out> <shard> <nshards> [skip]\n");
+    if (mode == "c20one" && argc >= 3)
+    {
+        // ONE run in THIS fresh process: seed first, then build everything, solve under an
+        // evaluation-count condition, print the complete outcome as bit patterns.
+        json job = json::parse(argv[2]);
+        unsigned seed = job["seed"];
+        ompl::RNG::setSeed(seed);
+        bool seedTookEffect = ompl::RNG::getSeed() == seed;
+        const Entry *e = findPlanner(reg, job["planner"]);
+        World w(job["W"], job["H"], job["obst"].get<std::vector<int>>());
+        Problem pr(w, job.value("space", "R2"), 0.01);
+        pr.validity->hashing = true;
+        auto pd = pr.makeQuery(job["start"], job["goal"], job.value("thr", 0.0), 0.13, -0.21, -0.17, 0.09);
+        if (job.value("objective", "") == "length")
+            pd->setOptimizationObjective(std::make_shared<ob::PathLengthOptimizationObjective>(pr.si));
+        ob::PlannerPtr p = e->make(pr.si);
+        p->setProblemDefinition(pd);
+        startWatchdog(60000, 900000);
+        std::string fp;
+        char buf[64];
+        {
+            RunGuard g(job);
+            int nsolves = job.value("solves", 1);
+            for (int i = 0; i < nsolves; ++i)
+            {
+                Budget b;
+                b.k = job["budget"];
+                b.pdef = pd.get();
+                ob::PlannerStatus st = p->solve(b.ptc());
+                snprintf(buf, sizeof buf, "%s/%ld/", statusName(st), (long)b.evals.load());
+                fp += buf;
+            }
+        }
+        snprintf(buf, sizeof buf, "q%llu/h%016llx/n%zu", (unsigned long long)pr.validity->queries.load(),
+                 (unsigned long long)pr.validity->hash.load(), pd->getSolutionCount());
+        fp += buf;
+        unsigned long long ph = 1469598103934665603ULL;
+        for (auto &s : pd->getSolutions())
+        {
+            auto *pg = dynamic_cast<og::PathGeometric *>(s.path_.get());
+            std::vector<double> reals;
+            for (std::size_t i = 0; pg && i < pg->getStateCount(); ++i)
+            {
+                pr.space->copyToReals(reals, pg->getState(i));
+                for (double v : reals)
+                {
+                    unsigned long long u;
+                    memcpy(&u, &v, 8);
+                    ph = (ph ^ u) * 1099511628211ULL;
+                }
+            }
+            unsigned long long u;
+            double c = s.cost_.value();
+            memcpy(&u, &c, 8);
+            ph = (ph ^ u) * 1099511628211ULL;
+            ph = (ph ^ (s.approximate_ ? 3 : 5)) * 1099511628211ULL;
+        }
+        snprintf(buf, sizeof buf, "/p%016llx", ph);
+        fp += buf;
+        std::cout << "OBS " << json{{"val", fp}, {"seedTookEffect", seedTookEffect}}.dump() << std::endl;
+        return 0;
+    }
+    fprintf(stderr, "usage: planners list | c01|c03|c04 <jobs> <out> <shard> <nshards> [skip] | c20one <job>\n");
     return 2;
 }
